@@ -60,6 +60,9 @@ def main():
             print("replaying rule %s instance %s [%s] on the current tree" % (v.get("rule"), v.get("function"), v.get("key")))
             chk.replay_filter = (v.get("rule"), v.get("function"), v.get("key"))
         mod.run(chk)
+        if a.tier == "thorough" and not a.replay:
+            from vlib import controls
+            controls.run(pid, chk)
         if a.replay:
             flt = chk.replay_filter
             chk.violations = [x for x in chk.violations if (x["rule"], x["function"], x["key"]) == flt]
